@@ -50,6 +50,7 @@ class Ctx:
         self.cnt = Function('cnt', L, R, IntSort())
         self.len = Function('len', L, IntSort())
         self.at = Function('at', L, IntSort(), R)
+        self.idx = Function('idx', L, R, IntSort())
         self.SetS = ArraySort(R, BoolSort())
         self.card = Function('card', self.SetS, IntSort())
         self.boxint = Function('boxint', IntSort(), R)
@@ -65,6 +66,12 @@ class Ctx:
             self.KEY_NAME != self.KEY_NS, self.KEY_NAME != self.KEY_EDIF, self.KEY_NS != self.KEY_EDIF,
             ForAll([l, y], self.cnt(l, y) >= 0, patterns=[self.cnt(l, y)]),
             ForAll([l], self.len(l) >= 0, patterns=[self.len(l)]),
+            # positional view: every position holds a member; every member has a position; in a duplicate-free list positions are unique
+            ForAll([l, i], Implies(And(0 <= i, i < self.len(l)), self.cnt(l, self.at(l, i)) >= 1), patterns=[self.at(l, i)]),
+            ForAll([l, y], Implies(self.cnt(l, y) >= 1, And(0 <= self.idx(l, y), self.idx(l, y) < self.len(l), self.at(l, self.idx(l, y)) == y)),
+                   patterns=[self.idx(l, y)]),
+            ForAll([l, i], Implies(And(0 <= i, i < self.len(l), self.cnt(l, self.at(l, i)) == 1), self.idx(l, self.at(l, i)) == i),
+                   patterns=[self.at(l, i)]),
             ForAll([i], And(self.cls(self.boxint(i)) == self.C['Foreign'], self.intval(self.boxint(i)) == i), patterns=[self.boxint(i)]),
         ]
 
